@@ -1037,6 +1037,21 @@ func (w *World) observeSync(rc *Recorder, f func() error) {
 	// the abstract machine's verify (the function the whole-history theorems are about) takes the same
 	// decision as the byte-level model on this very state (both evaluated in Coq on the same input)
 	rc.cw.Add("machine_verify_agrees", in, I(1), "machine-verify/"+strings.TrimPrefix(cls, "sync-step/"), first != nil)
+	// the sync state a step that wrote a file leaves behind, against the machine's write_file
+	fs := int64(ps + 24)
+	if first != nil && err == nil && (int64(len(wal))-32)%fs == 0 && (first.walOffset+first.walSize-32)%fs == 0 {
+		st1 := w.ldb.VerifSyncState()
+		fr := func(off int64) int64 {
+			if off <= 32 {
+				return 0
+			}
+			return (off - 32) / fs
+		}
+		rc.cw.Add("machine_sync_state",
+			L(B(st.SyncedToWALEnd), B(st.ReachedWALEnd), I((int64(len(wal))-32)/fs), I(fr(first.walOffset+first.walSize))),
+			L(B(st1.SyncedToWALEnd), B(st1.ReachedWALEnd), I(fr(st1.LastSyncedWALOffset))),
+			"machine-sync-state/"+strings.TrimPrefix(cls, "sync-step/"), true)
+	}
 }
 
 // ---- history generation ----------------------------------------------------------------------------------------
